@@ -826,6 +826,18 @@ func (e *endpoint) handleSegments() *tcpip.Error {
 				// we only process it if it's acceptable.
 				s.decRef()
 				e.rcvdRst = true
+				// RFC 793, page 70: in the CLOSING and LAST-ACK
+				// states (the peer's FIN was received and our
+				// own FIN was sent) a reset just closes the
+				// connection: the user, who has been given
+				// everything the peer sent, gets no "connection
+				// reset". This is what the retransmission of
+				// our FIN meets when its ACK was lost and the
+				// peer has already closed.
+				if e.rcv.closed && e.snd.closed && e.snd.sndNxt == e.snd.sndNxtList {
+					e.closedByRst = true
+					return nil
+				}
 				return tcpip.ErrConnectionReset
 			}
 		} else if s.flagIsSet(flagAck) {
@@ -1135,7 +1147,7 @@ func (e *endpoint) protocolMainLoop(handshake bool) *tcpip.Error {
 	// 主循环，处理tcp报文
 	// 要使这个主循环结束，也就是tcp连接完全关闭，得同时满足三个条件：
 	// 1，接收器关闭了 2，发送器关闭了 3，下一个未确认的序列号等于添加到发送列表的下一个段的序列号
-	for !e.rcv.closed || !e.snd.closed || e.snd.sndUna != e.snd.sndNxtList {
+	for !e.closedByRst && (!e.rcv.closed || !e.snd.closed || e.snd.sndUna != e.snd.sndNxtList) {
 		e.workMu.Unlock()
 		// s.Fetch 会返回事件的index，比如 v=0 的话，
 		// funcs[v].f()就是调用 e.handleWrite
